@@ -411,6 +411,12 @@ func init() {
 				sc := baseScenario()
 				pool := remotePool(sc, 4)
 				k := g.Range(1, 8)
+				// a third local actor whose IRIs differ from alice's only in
+				// the case of one path letter: another resource, another owner
+				twin := g.Bool()
+				if twin {
+					sc.Actors = append(sc.Actors, localActor("Alice"))
+				}
 				for j := 0; j < k; j++ {
 					body := M{"type": pick(g, "Note", "Article", "Listen", "Create", "Offer")}
 					if body["type"] == "Create" {
@@ -426,6 +432,12 @@ func init() {
 						box = bob() + "/outbox"
 						if body["actor"] != nil {
 							body["actor"] = bob()
+						}
+					}
+					if twin && g.Chance(1, 3) {
+						box = L + "/users/Alice/outbox"
+						if body["actor"] != nil {
+							body["actor"] = L + "/users/Alice"
 						}
 					}
 					if g.Chance(1, 4) {
